@@ -449,6 +449,7 @@ fn sweep_points(run: &Run) -> Vec<(usize, usize, usize, bool)> {
 	v
 }
 pub const K_LAZY: &str = "C04-recursion-through-lazy-members-not-limited";
+pub const K_DROP: &str = "C04-deep-value-chain-drop-overflows-native-stack";
 /// shapes whose depth grows only by forcing lazy members (recorded finding K_LAZY: they are not counted as frames)
 const LAZY_MEMBER_SHAPES: &[&str] = &["array-elements", "map-callback", "comprehension-elements", "object-fields", "object-comprehension-fields"];
 
@@ -458,8 +459,15 @@ fn sweep_case(run: &Run, s: usize, l: usize, n: usize, must_succeed: bool) -> Ca
 	let text = format!("[{name}, frame limit {l}, depth {n}] {code}");
 	let mut problems = vec![];
 	let mut known_hit = false;
+	let mut known_drop = false;
 	for parser in ["ir", "peg"] {
 		let (out, canary) = eval(&code, &Cfg { parser, max_stack: l, ..Cfg::default() }, 300);
+		// recorded finding: with the frame limit raised to 200000 a chain of >= 10^5 nested thunks / contexts is built
+		// and the process dies in its recursive drop
+		if l >= 200_000 && name == "lazy-accumulator" && matches!(out, Out::Crash(..)) && run.is_known(K_DROP) {
+			known_drop = true;
+			continue;
+		}
 		crashes(&format!("parser {parser}"), &out, &canary, &mut problems);
 		match (&out, must_succeed) {
 			(Out::Val(v), true) => {
@@ -484,6 +492,9 @@ fn sweep_case(run: &Run, s: usize, l: usize, n: usize, must_succeed: bool) -> Ca
 		let mut c = CaseOut::pass(text, true).class(cls);
 		if known_hit {
 			c.verdict = Verdict::Known(K_LAZY.to_owned());
+		}
+		if known_drop {
+			c.verdict = Verdict::Known(K_DROP.to_owned());
 		}
 		c
 	} else {
@@ -746,6 +757,12 @@ fn depth_case(nest: bool, i: usize, d: usize) -> CaseOut {
 
 /// reproducer text of the recorded finding: "<shape> <depth>"
 fn known_case(run: &Run, replay: &str) -> CaseOut {
+	if let Some(shape) = replay.trim().strip_prefix("drop ") {
+		// reproducer of the drop finding: 150000 levels under a frame limit of 200000 (well below it: must give the value)
+		if let Some(s) = SHAPES.iter().position(|s| s.0 == shape) {
+			return sweep_case(run, s, 200_000, 150_000, true);
+		}
+	}
 	if let Some(s) = SHAPES.iter().position(|s| s.0 == replay.trim()) {
 		// reproducer of the recursion finding: that shape, 16 times deeper than a frame limit of 50
 		return sweep_case(run, s, 50, 800, false);
